@@ -8,10 +8,10 @@ from . import smf
 CHARSETS = ['latin1', 'utf-8', 'cp1252', 'shift_jis', 'utf-16', 'ascii', 'cp437', 'utf-32-be']
 TEXTS = {
     'latin1': ['', 'abc', 'é\xff', 'Ünïcödé' * 20],
-    'utf-8': ['', 'abc', 'é', '日本語', '\U0001F3B5 music', 'é' * 100],
+    'utf-8': ['', 'abc', 'é', '日本語', '\U0001F3B5 music', 'e\u0301 decomposed', 'é' * 100],
     'cp1252': ['', 'abc', '€uro', 'œ™'],
-    'shift_jis': ['', 'abc', '日本語', 'ｶﾀｶﾅ'],
-    'utf-16': ['', 'abc', 'é日', '\U0001F3B5'],
+    'shift_jis': ['', 'abc', '日本語', 'ｶﾀｶﾅ', '\u212b \uff21'],
+    'utf-16': ['', 'abc', 'é日', '\U0001F3B5', 'A\u030a e\u0301'],
     'ascii': ['', 'abc', '~!'],
     'cp437': ['', 'abc', '░▒▓'],
     'utf-32-be': ['', 'a', 'é日\U0001F3B5'],
@@ -119,7 +119,13 @@ def charset_rt(cx, charset):
     kind = TEXT_KINDS[cx.choice('kind', len(TEXT_KINDS))]
     attr = 'name' if kind in ('track_name', 'instrument_name', 'device_name') else 'text'
     msg = mido.MetaMessage(kind, time=cx.int('dt', 0, 2 ** 20), **{attr: text})
-    mid = mido.MidiFile(type=1, ticks_per_beat=96, charset=charset, tracks=[mido.MidiTrack([msg])])
+    if cx.bool('charset_assigned_later'):
+        # the charset attribute is public and may be set after construction
+        mid = mido.MidiFile(type=1, ticks_per_beat=96, charset=CHARSETS[(CHARSETS.index(charset) + 1) % len(CHARSETS)],
+                            tracks=[mido.MidiTrack([msg])])
+        mid.charset = charset
+    else:
+        mid = mido.MidiFile(type=1, ticks_per_beat=96, charset=charset, tracks=[mido.MidiTrack([msg])])
     f = smf.out_file(cx)
     mid.save(file=f)
     data = smf.file_bytes(cx, f)
